@@ -248,6 +248,12 @@ func (e *verifEnv) deliver(m *GMessage) bool {
 	if err != nil {
 		return false
 	}
+	// A4 authenticity: a message accepted in the name of an honest member was signed by it
+	for idx := range e.votes {
+		if idx != verifByzIdx && idx < len(e.c.PowerTable.Entries) && e.c.PowerTable.Entries[idx].ID == m.Sender {
+			sym.Assert(e.voted(idx, m.Vote.Round, m.Vote.Phase, m.Vote.Value), "A4: a message accepted in the name of an honest member was signed by that member")
+		}
+	}
 	if m.Vote.Phase == DECIDE_PHASE && e.p.Progress().ID == verifInstance {
 		if _, dup := e.decideVotes[m.Sender]; !dup {
 			e.decideVotes[m.Sender] = m.Vote.Value
